@@ -132,6 +132,26 @@ def _evaluate(col, p, shape, m, d, mm, dm, data_folded, tag):
             osf = Inference.optimally_scaled_sfs(model, data)
             if not np.allclose(np.asarray(osf.data)[~mm], (cstar * m)[~mm], rtol=1e-12, atol=0):
                 col.violation('C11:optimally_scaled_sfs:value', info, '')
+    if not data_folded:
+        # --- corners left unmasked in both spectra (monomorphic classes kept): they are ordinary entries of the Poisson likelihood
+        mm_u, dm_u = mm.copy(), dm.copy()
+        mm_u.flat[0] = mm_u.flat[-1] = dm_u.flat[0] = dm_u.flat[-1] = False
+        ex_u, n_u = oracle_ll(m, d, mm_u, dm_u)
+        if n_u:
+            got_u = float(Inference.ll(dadi.Spectrum(m.copy(), mask=mm_u.copy(), mask_corners=False), dadi.Spectrum(d.copy(), mask=dm_u.copy(), mask_corners=False)))
+            col.tick(transitions=1)
+            if not abs(got_u - ex_u) <= 1e-11 * max(1.0, abs(ex_u) + 50.0 * n_u):
+                col.violation('C11:ll:corners_unmasked', info, {'got': got_u, 'exact': ex_u, 'n_entries': n_u})
+    else:
+        # --- the same model OBJECT changed in place between two evaluations against folded data (rescaled, then one more entry masked)
+        model *= 2.0
+        ex2, n2 = oracle_ll(2.0 * m_eff, d_eff, mm_eff, dm_eff)
+        if n2:
+            got2 = float(Inference.ll(model, data))
+            col.tick(transitions=1)
+            if not abs(got2 - ex2) <= 1e-11 * max(1.0, abs(ex2) + 50.0 * n2):
+                col.violation('C11:ll:stale_after_inplace_change', dict(info, change='model *= 2'), {'got': got2, 'exact': ex2})
+        model /= 2.0
     # --- the data (or the model) handed over as a plain array of counts, no mask of its own: the other one's mask applies to both
     if not data_folded:
         keep = ~mm
